@@ -403,6 +403,17 @@ func runCase(t *testing.T, tr *hx.Trace, id int, r *rand.Rand, script []string) 
 		}
 		now := int64(0)
 		payload := 0
+		// the end last submitted for a label set (empty-valued labels dropped): a later submission sometimes starts at exactly that instant
+		lastEnd := map[string]string{}
+		cleanKey := func(ls map[string]string) string {
+			cl := map[string]string{}
+			for k, v := range ls {
+				if v != "" {
+					cl[k] = v
+				}
+			}
+			return encLabels(cl)
+		}
 		half := 30 * second
 		nops := 4 + r.IntN(9)
 		for range nops {
@@ -451,6 +462,14 @@ func runCase(t *testing.T, tr *hx.Trace, id int, r *rand.Rand, script []string) 
 							p.start, p.end = p.end, p.start
 						}
 					}
+					if e, ok := lastEnd[cleanKey(ls)]; ok && r.IntN(5) == 0 {
+						// the alert fires again starting at the very instant its previous episode ended (no overlap: a new episode)
+						p.start = e
+						p.end = "-"
+						if r.IntN(2) == 0 {
+							p.end = fmt.Sprint(hx.Atoi64(e) + int64(r.IntN(8))*half)
+						}
+					}
 					switch r.IntN(24) {
 					case 0:
 						p.labels = map[string]string{}
@@ -462,6 +481,9 @@ func runCase(t *testing.T, tr *hx.Trace, id int, r *rand.Rand, script []string) 
 						p.annNames = []string{hx.Pick(r, []string{"a-b", "9"})}
 					case 4, 5:
 						p.labels[hx.Pick(r, []string{"role", "zz", "e"})] = "" // empty-valued: dropped before fingerprinting
+					}
+					if p.end != "-" {
+						lastEnd[cleanKey(p.labels)] = p.end
 					}
 					batch = append(batch, p.String())
 				}
